@@ -700,6 +700,38 @@ def alias_attributes(trees_by_path):
     return counts
 
 
+def numpy_function_forms(tree):
+    """x.sum(..) -> np.sum(x, ..)   likewise any, all, mean, min, max, argmin, argmax, cumsum, prod, std, var   - in modules that import numpy as
+    np, for receivers that are not a module / generator name.  (The function form accepts everything the method form accepts.)"""
+    if not any(isinstance(st, ast.Import) and any(al.name == "numpy" and al.asname == "np" for al in st.names) for st in tree.body):
+        return 0
+    count = [0]
+    mods = {(al.asname or al.name).split(".")[0] for st in ast.walk(tree) if isinstance(st, (ast.Import, ast.ImportFrom)) for al in st.names} | {"rng", "self", "cls", "random", "heapq", "math"}
+    METHODS = {"sum", "any", "all", "mean", "min", "max", "argmin", "argmax", "cumsum", "prod", "std", "var"}
+
+    class T(ast.NodeTransformer):
+        def visit_Call(self, n):
+            self.generic_visit(n)
+            if isinstance(n.func, ast.Attribute) and n.func.attr in METHODS and not any(isinstance(a, ast.Starred) for a in n.args) and not any(k.arg is None for k in n.keywords):
+                recv = n.func.value
+                root = recv
+                while isinstance(root, (ast.Attribute, ast.Subscript, ast.Call)):
+                    root = root.value if not isinstance(root, ast.Call) else root.func
+                if isinstance(recv, ast.Name) and recv.id in mods:
+                    return n
+                if isinstance(root, ast.Name) and root.id in (mods - {"self", "cls"}) and not isinstance(recv, (ast.Call, ast.Subscript)):
+                    return n            # np.random.x, scipy.x ...
+                if isinstance(recv, ast.Call) and isinstance(recv.func, ast.Attribute) and isinstance(recv.func.value, ast.Name) and recv.func.value.id in ("rng",):
+                    pass
+                count[0] += 1
+                return ast.copy_location(ast.Call(func=ast.Attribute(value=ast.Name(id="np", ctx=ast.Load()), attr=n.func.attr, ctx=ast.Load()), args=[recv] + n.args, keywords=n.keywords), n)
+            return n
+    for fn in [x for x in ast.walk(tree) if isinstance(x, (ast.FunctionDef, ast.AsyncFunctionDef))]:
+        T().visit(fn)
+    ast.fix_missing_locations(tree)
+    return count[0]
+
+
 def transformed_copy(mode, suffix="_q"):
     """a scratch copy of the analysed tree (VERIF_REPO_ROOT or /repo) with one transformation applied everywhere; (path, number of rewrites)"""
     src_root = os.environ.get("VERIF_REPO_ROOT", "/repo")
@@ -750,7 +782,7 @@ def transformed_copy(mode, suffix="_q"):
                 total += k
             continue
         k = {"hoist-returns": hoist_returns, "name-arguments": name_arguments, "unelse": unelse, "else-after-exit": else_after_exit,
-             "flip-comparisons": flip_comparisons, "inline-temps": inline_temps, "swap-arms": swap_arms, "generators-for-lists": generators_for_lists, "swap-products": swap_products, "rename-comprehension-variables": rename_comprehension_variables, "loops-for-comprehensions": loops_for_comprehensions,
+             "flip-comparisons": flip_comparisons, "inline-temps": inline_temps, "swap-arms": swap_arms, "generators-for-lists": generators_for_lists, "swap-products": swap_products, "numpy-function-forms": numpy_function_forms, "rename-comprehension-variables": rename_comprehension_variables, "loops-for-comprehensions": loops_for_comprehensions,
              "name-tests": name_tests}.get(mode, lambda t: rename_locals(t, suffix))(tree)
         if k:
             open(path, "w").write(ast.unparse(tree) + "\n")
@@ -767,7 +799,7 @@ def main():
     if "--only" in sys.argv:
         only = sys.argv[sys.argv.index("--only") + 1].split(",")
     mode = "rename-locals"
-    for m_ in ("hoist-returns", "name-arguments", "unelse", "else-after-exit", "flip-comparisons", "keyword-arguments", "inline-temps", "swap-arms", "generators-for-lists", "name-tests", "swap-products", "loops-for-comprehensions", "rename-comprehension-variables", "alias-attributes", "combined-2", "combined"):
+    for m_ in ("hoist-returns", "name-arguments", "unelse", "else-after-exit", "flip-comparisons", "keyword-arguments", "inline-temps", "swap-arms", "generators-for-lists", "name-tests", "swap-products", "loops-for-comprehensions", "rename-comprehension-variables", "alias-attributes", "numpy-function-forms", "combined-2", "combined"):
         if "--" + m_ in sys.argv:
             mode = m_
     out = tempfile.mkdtemp(prefix="batchie-verif-alpha-out-", dir="/var/tmp")
